@@ -117,8 +117,12 @@ class Repo(object):
                     rel = os.path.relpath(path, self.root)
                     self.mods[rel] = Module(rel, path)
         self.canonicalised = []
+        for m in self.mods.values():
+            m.tree._repo = self
         if canonical and os.environ.get('PGSA_NO_CANONICAL') != '1':
             self._canonicalise()
+        for m in self.mods.values():
+            m.tree._repo = self
 
     def _canonicalise(self):
         """Analysis modulo normal-form equivalence: a function whose text
